@@ -280,6 +280,53 @@ def check(ctx):
                    f"(named view and list disagree)", key="fresh")
 
     cleanup_names(ctx, repo, msg, grp)
+    derived_state(ctx, repo, (msg, grp))
+    # the Message Length is the sum of the members' AVP Lengths: the `length` an AVP reports must be computed from the data it
+    # holds NOW on every path (the Grouped container rewrites `_data` in place; a stored length that is handed back goes stale and
+    # the Message Length no longer matches the bytes dump() emits)
+    ctx.clause = "7-avp-length-is-derived"
+    lg_ = avp.props.get("length", {}).get("get")
+    if lg_ is None:
+        ctx.undecided("R-FLOW/avp-length-derived", f"{avp.qual}.length", avp.where(), "length getter not found", key="getter")
+    else:
+        from .. import sym as _sy7
+        from ..astutil import strip_doc as _sd7
+        def _mentions_len_of_data(t):
+            if isinstance(t, tuple):
+                if t[:1] == ("call",) and t[1] == ("name", "len") and len(t[2]) == 1 and isinstance(t[2][0], tuple) \
+                        and t[2][0][:1] == ("attr",) and t[2][0][2] in ("data", "_data"):
+                    return True
+                return any(_mentions_len_of_data(x) for x in t)
+            return False
+        def _stored_attrs(t):
+            """attributes of self other than the data / vendor id that the returned length is read from"""
+            out_ = set()
+            if isinstance(t, tuple):
+                if t[:1] == ("attr",) and t[1] == _sy7.S("self") and t[2] not in ("data", "_data", "vendor_id", "_vendor_id"):
+                    out_.add(t[2])
+                if t[:1] == ("call",) and t[1] == ("name", "getattr") and len(t[2]) >= 2 and t[2][0] == _sy7.S("self") \
+                        and t[2][1] not in ("data", "_data", "vendor_id", "_vendor_id"):
+                    out_.add(str(t[2][1]))
+                for x in t:
+                    out_ |= _stored_attrs(x)
+            return out_
+        bad_ = []
+        try:
+            ps7 = _sy7.Interp(fold=lambda e: repo.fold(avp.mod, e), limit=20000).run(_sd7(lg_.body), _sy7.PathState({"self": _sy7.S("self")}, [], []))
+        except _sy7.TooMany:
+            ps7 = []
+        n7 = 0
+        for p7 in ps7:
+            if p7.term != "return":
+                continue
+            n7 += 1
+            if _stored_attrs(p7.value):
+                bad_.append(_sy7.show(p7.value)[:80])
+        ctx.decide(n7 > 0 and not bad_, "R-FLOW/avp-length-derived", f"{avp.qual}.length", avp.where(lg_),
+                   "every path of the AVP length getter computes the length from the current data",
+                   f"a path of DiameterAVP.length returns {bad_} - a stored value, not one computed from len(data): a Grouped AVP whose "
+                   f"members were changed in place (append / pop / item assignment write `_data` directly) keeps reporting the old "
+                   f"length, and the Message Length summed from it no longer matches dump()", key="length_from_data")
 
     # ---- clause 4: symmetric arithmetic ---------------------------------------------------------
     ctx.clause = "4-symmetric-length"
@@ -561,9 +608,76 @@ def cleanup_names(ctx, repo, msg, grp):
     # evaluated (term interpreter, key = a concrete witness) on names of that shape: each must be selected, `_avps` must not
     ctx.clause = "1b-cleanup-covers-append-names"
     from .. import sym as _sy
-    witnesses = ["x_avp", "origin_host_avp", "x_avp__1", "x_avp__9", "x_avp__10", "route_record_avp__123", "x_avp__4567"]
+    base_witnesses = ["x_avp", "origin_host_avp", "x_avp__1", "x_avp__9", "x_avp__10", "route_record_avp__123", "x_avp__4567"]
+
+    def derived_witnesses(ci):
+        """names of the shapes THIS append creates: every f-string assigned to the variable that append stores into the name map,
+        instantiated with sample values (the variable itself by the witnesses found so far)"""
+        ap = ci.methods.get("append")
+        if ap is None:
+            return [], None
+        keyvars = set()
+        for n_ in ast.walk(ap):
+            if isinstance(n_, ast.Assign) and len(n_.targets) == 1 and isinstance(n_.targets[0], ast.Subscript) \
+                    and ast.unparse(n_.targets[0].value).endswith("__dict__") and isinstance(n_.targets[0].slice, ast.Name):
+                keyvars.add(n_.targets[0].slice.id)
+            if isinstance(n_, ast.Call) and isinstance(n_.func, ast.Attribute) and n_.func.attr == "update" \
+                    and ast.unparse(n_.func.value).endswith("__dict__") and n_.args and isinstance(n_.args[0], ast.Dict):
+                keyvars |= {k_.id for k_ in n_.args[0].keys if isinstance(k_, ast.Name)}
+        if len(keyvars) != 1:
+            return [], "the variable stored into the name map was not found"
+        kv = next(iter(keyvars))
+        def pieces(e):
+            if isinstance(e, ast.JoinedStr):
+                out_ = []
+                for v_ in e.values:
+                    out_ += pieces(v_.value) if isinstance(v_, ast.FormattedValue) else pieces(v_)
+                return out_
+            if isinstance(e, ast.BinOp) and isinstance(e.op, ast.Add):
+                return pieces(e.left) + pieces(e.right)
+            if isinstance(e, ast.Constant) and isinstance(e.value, str):
+                return [("const", e.value)]
+            if isinstance(e, ast.Name) and e.id in carriers:
+                return [("self",)]
+            return [("var",)]
+        shapes, opaque = [], []
+        # temporaries that are copied into the key variable carry the name as well (`tmp = f".."; key = tmp`)
+        carriers = {kv}
+        for _ in range(3):
+            for n_ in ast.walk(ap):
+                if isinstance(n_, ast.Assign) and len(n_.targets) == 1 and isinstance(n_.targets[0], ast.Name) and n_.targets[0].id in carriers \
+                        and isinstance(n_.value, ast.Name) and n_.value.id != kv:
+                    carriers.add(n_.value.id)
+        for n_ in ast.walk(ap):
+            if isinstance(n_, ast.Assign) and len(n_.targets) == 1 and isinstance(n_.targets[0], ast.Name) and n_.targets[0].id in carriers:
+                if isinstance(n_.value, ast.Name) and n_.value.id in carriers:
+                    continue
+                ps_ = pieces(n_.value)
+                if any(k_[0] == "const" for k_ in ps_):
+                    shapes.append(ps_)
+                else:
+                    opaque.append(ast.unparse(n_.value)[:60])
+        if opaque:
+            return [], f"the name is computed by {opaque}"
+        out = []
+        for round_ in range(2):
+            for ps_ in shapes:
+                for sample in ("x", "7"):
+                    for prev in ([None] if ("self",) not in ps_ else list(out)):
+                        out.append("".join(k_[1] if k_[0] == "const" else (prev if k_[0] == "self" else sample) for k_ in ps_))
+        seen_, uniq = set(), []
+        for w_ in out:
+            if w_ not in seen_:
+                seen_.add(w_)
+                uniq.append(w_)
+        return uniq[:40], None
     for ci in (msg, grp):
         cl = ctx.need(ci.methods.get("cleanup"), f"{ci.name}.cleanup")
+        dw_, why_ = derived_witnesses(ci)
+        if why_:
+            ctx.undecided("R-TABLE/cleanup-names", f"{ci.qual}.cleanup", ci.where(cl), f"names created by append are not derivable: {why_}", key="shapes")
+            continue
+        witnesses = base_witnesses + [w_ for w_ in dw_ if w_ not in base_witnesses]
         selected = {}
         sources = []
         def key_name(target, it):
@@ -618,3 +732,79 @@ def cleanup_names(ctx, repo, msg, grp):
         ctx.decide(not selected.get("_avps") and not selected.get("_loaded") and not selected.get("header"), "R-TABLE/cleanup-names",
                    f"{ci.qual}.cleanup", ci.where(node), "the list attribute itself is not treated as a name",
                    "cleanup's key filter also selects the container's own attributes", key="not_own", nontrivial=False)
+
+
+
+_DATA_METHODS = {"append", "extend", "insert", "pop", "remove", "clear", "update", "add", "discard", "setdefault", "popitem", "sort", "reverse"}
+
+
+def derived_state(ctx, repo, classes):
+    """R-PAIR/derived-state: an instance attribute the confirmed tree does not have (a parallel list of names, an index, a cached
+    length, a reverse map) that container methods fill with data and consult is DERIVED from the name map / AVP list.  It is
+    coherent only if every method that changes the name map (resp. the list) also updates it; a mutator that does not is the
+    classic missed update: the derived value goes stale and the next method that trusts it writes the wrong name or position."""
+    ctx.clause = "6-derived-state"
+    from ..normalize import load_inventory
+    inv = load_inventory()
+    n_new = 0
+    for ci in classes:
+        known = set(inv.get("instance_attrs", {}).get(ci.qual, [])) | set(inv.get("class_names", {}).get(ci.qual, []))
+        funcs = dict(ci.methods)
+        for name, d in ci.props.items():
+            for k_, f_ in d.items():
+                funcs[f"{name}[{k_}]"] = f_
+        writes, reads = {}, {}          # attr -> {method}
+        map_mut, list_mut = set(), set()
+        for mname, fn in funcs.items():
+            for n_ in ast.walk(fn):
+                if isinstance(n_, ast.Attribute) and isinstance(n_.value, ast.Name) and n_.value.id == "self":
+                    a_ = n_.attr
+                    if a_ in known or a_.startswith("__") or a_ in ci.methods or a_ in ci.props:
+                        continue
+                    if isinstance(n_.ctx, (ast.Store, ast.Del)):
+                        writes.setdefault(a_, set()).add(mname)
+                    else:
+                        reads.setdefault(a_, set()).add(mname)
+            par = {}
+            for p_ in ast.walk(fn):
+                for ch in ast.iter_child_nodes(p_):
+                    par[id(ch)] = p_
+            for n_ in ast.walk(fn):
+                if isinstance(n_, ast.Attribute) and isinstance(n_.value, ast.Name) and n_.value.id == "self":
+                    up = par.get(id(n_))
+                    up2 = par.get(id(up)) if up is not None else None
+                    data_write = (isinstance(up, ast.Attribute) and up.attr in _DATA_METHODS and isinstance(up2, ast.Call) and up2.func is up) or \
+                        (isinstance(up, ast.Subscript) and up.value is n_ and isinstance(up.ctx, (ast.Store, ast.Del))) or \
+                        (isinstance(up, ast.AugAssign) and up.target is n_)
+                    if not data_write:
+                        continue
+                    if n_.attr == "__dict__":
+                        map_mut.add(mname)
+                    elif n_.attr == "_avps":
+                        list_mut.add(mname)
+                    elif n_.attr not in known and n_.attr not in ci.methods:
+                        writes.setdefault(n_.attr, set()).add(mname)
+                if isinstance(n_, ast.Assign) and any(ast.unparse(t_) == "self._avps" for t_ in n_.targets):
+                    list_mut.add(mname)
+                if isinstance(n_, ast.Call) and isinstance(n_.func, ast.Name) and n_.func.id in ("setattr", "delattr") and n_.args \
+                        and isinstance(n_.args[0], ast.Name) and n_.args[0].id == "self" and len(n_.args) > 1 and not isinstance(n_.args[1], ast.Constant):
+                    map_mut.add(mname)
+        map_mut.discard("__init__")
+        list_mut.discard("__init__")
+        for a_ in sorted(set(writes) | set(reads)):
+            w_ = writes.get(a_, set()) - {"__init__"}
+            r_ = reads.get(a_, set())
+            if not w_:
+                continue         # set once in the constructor: configuration, not derived state
+            n_new += 1
+            tied_map = bool(w_ & map_mut)
+            tied_list = bool(w_ & list_mut)
+            missing = sorted(((map_mut if tied_map else set()) | (list_mut if tied_list else set())) - w_ - r_)
+            ctx.decide(not missing or not (tied_map or tied_list), "R-PAIR/derived-state", f"{ci.qual}.{a_}", ci.where(),
+                       f"new attribute `{a_}` is updated by every method that changes the state it mirrors",
+                       f"`self.{a_}` is state the confirmed tree does not have; it is maintained by {sorted(w_)} - methods that change the "
+                       f"{'name map' if tied_map else ''}{' / ' if tied_map and tied_list else ''}{'AVP list' if tied_list else ''} - and consulted by "
+                       f"{sorted(r_ - w_)}, but {missing} change the same state without touching it: after one of them runs the "
+                       f"attribute is stale and the methods that trust it name or place AVPs wrongly (named view and list drift apart)",
+                       key=f"derived:{a_}")
+    ctx.count("new_container_attributes", n_new)
